@@ -582,6 +582,10 @@ class _NumericOperationsImpl(OperationsBlock):
     ):
         if not isinstance(x.dtype, ndx.CoreType):
             return NotImplemented
+        if dtype is not None and not isinstance(
+            dtype, (dtypes.Numerical, dtypes.NullableNumerical)
+        ):
+            raise TypeError(f"Unsupported dtype parameter for cumulative_sum {dtype}")
         if axis is None:
             if x.ndim <= 1:
                 axis = 0
